@@ -51,6 +51,14 @@ def starve_cases(seed):
                       f"at {rng.randrange(2, 6)} : wr f0 2", f"at {rng.randrange(2, 8)} : xpost e0",
                       f"do reg f0 100 ; evreg e0 ; trel t0 {due} ; trel t1 {rounds * 1000} ; kreg k1", "main"]
                 cases.append((f"starve-{loopgen.METHOD_NAME[m]}-ring{ring}{cfgx.strip() and '-' + cfgx.strip()}", L))
+        # a loop that has been running for a long time: the task round counter passes 2^16 (and 2^31) while a task ring keeps re-registering
+        for e0 in (65533, 65535, 2147483646):
+            for ring in (1, 2):
+                L = ([f"exclude {m}"] if m else []) + [f"cfg waitlimit=20 cblimit=200 epoch0={e0}", "obj timer t1"] + [f"obj task k{i + 1}" for i in range(ring)]
+                for i in range(ring):
+                    L.append(f"on k{i + 1} * : ?kreg k{(i + 1) % ring + 1}")
+                L += ["on t1 1 : " + " ; ".join(f"?kunreg k{i + 1}" for i in range(ring)), "do trel t1 8000 ; kreg k1", "main"]
+                cases.append((f"starve-{loopgen.METHOD_NAME[m]}-epoch{e0}-ring{ring}", L))
     return cases
 
 
